@@ -5,10 +5,10 @@
     (The converse "FAILED_CHILD only below a failed block" is NOT an invariant of the code: removeSubtree drops
     FAILED_POP of the removed blocks and keeps the FAILED_CHILD of their descendants; [back_in l b] states the absence
     of such stale flags inside subtree(b).)   [sub l b p] = p is b or a descendant of b.
-    _partial (named in META of props/C08.py): restoration of the TIP SET by inv+reval (needs the tips conjunct of Inv_tree). *)
+    [tips_ok k l tps] = the tips conjunct of Inv_tree: tps = { b | canBeATip b and no child canBeATip }. *)
 From Coq Require Import ZArith NArith List Bool.
 From VB Require Import Tree.TreeDefs Tree.TreeInv Tree.TreePass Tree.TreeProofs Tree.TreeExact Tree.TreeRestore
-  Tree.TreeMono Tree.TreeSteps Tree.TreeChain.
+  Tree.TreeMono Tree.TreeSteps Tree.TreeChain Tree.TreeTips Tree.TreeTipsOps Tree.TreeTipsUp Tree.TreeRestoreTips.
 Import ListNotations.
 
 (* invalidate_exact: outside subtree(b) no failure flag changes; b gets the reason and nothing else; every proper
@@ -62,6 +62,31 @@ Theorem C08_inv_reval_id_flags :
     exists y2, find_blk p (blocks s2) = Some y2 /\ skel y2 = skel y /\ ffl (bst y2) = ffl (bst y).
 Proof. exact inv_reval_id_flags. Qed.
 Print Assumptions C08_inv_reval_id_flags.
+
+(* inv_reval_id (tip set): ... and the tip set is the one of s. The active tip: if b was on the best chain,
+   invalidateSubtree moved it to the parent of b (C08_set_state_to_tip); revalidateSubtree leaves it there in the ALT tree
+   (its determineBestChain does nothing) and re-determines it by chain work over the restored tips in the PoW tree *)
+Theorem C08_inv_reval_id_tips :
+  forall s id r o1 o2 s1 s2 x,
+  Inv_flags s -> tips_ok (tkind s) (blocks s) (tips s) ->
+  find_blk id (blocks s) = Some x -> has_reason r (bst x) = false -> back_in (blocks s) id ->
+  invalidate s id r o1 = Done s1 -> revalidate s1 id r o2 = Done s2 ->
+  forall q, memN q (tips s2) = memN q (tips s).
+Proof. exact inv_reval_id_tips. Qed.
+Print Assumptions C08_inv_reval_id_tips.
+
+(* the tip set stays exact under invalidation / revalidation (both trees, all early exits) *)
+Theorem C08_invalidate_tips :
+  forall s id r ord s', Inv_flags s -> tips_ok (tkind s) (blocks s) (tips s) ->
+  invalidate s id r ord = Done s' -> tips_ok (tkind s') (blocks s') (tips s') /\ tkind s' = tkind s.
+Proof. exact invalidate_tips_ok. Qed.
+Print Assumptions C08_invalidate_tips.
+
+Theorem C08_revalidate_tips :
+  forall s id r ord s', Inv_flags s -> tips_ok (tkind s) (blocks s) (tips s) ->
+  revalidate s id r ord = Done s' -> tips_ok (tkind s') (blocks s') (tips s') /\ tkind s' = tkind s.
+Proof. exact revalidate_tips_ok. Qed.
+Print Assumptions C08_revalidate_tips.
 
 (* the algebra behind nested invalidations / revalidations: FAILED_CHILD is a function of the own flags
    (two states with the same own flags, the same flags outside subtree(t) and no stale flag inside agree everywhere) *)
